@@ -234,7 +234,7 @@ class World(WorldBase):
             sw["chunk"] = rng.choice(CHUNKS[:4])
             sw["buf"] = rng.choice(BUFS[:4])
             sw["p_outfile"] = rng.choice([0.5, 0.8])
-            sw["hold_max"] = rng.choice([0, 1, 3])
+            sw["hold_max"] = rng.choice([0, 4, 8, 8])
         return sw
 
     # ------------------------------------------------------------------ construction ----
@@ -250,6 +250,8 @@ class World(WorldBase):
         self.last_call = {}   # adapter id -> canonical digest of its last result (repeat-call probe)
         self.recent = []      # the last few acknowledged call ops (for echoes)
         self.disk = None      # digests of the sandbox's files after the last operation
+        self.written_by = {}  # file -> entry point whose completed call wrote it last (acknowledged output)
+        self.retry = []       # requests that failed by an injected fault and are made again (same output name)
         self.plain_by_id = {}  # op id -> (closure ids, canonical result) of recent calls without an object (respelled re-issues)
         self.readers_of = {}  # path -> recent ops that read it
         self.reissue = []     # ops to make again after the file they read was rewritten / an argument was edited
@@ -369,10 +371,10 @@ class World(WorldBase):
                 return self.stamp(op, rng)
         if self.recent and rng.random() < sw.get("p_respell", 0.0):
             # a recent call again, its inputs spelled another way (dict items in the opposite
-            # order, plain numbers as numpy scalars): "the same inputs" must give the same result
+            # order): "the same inputs" must give the same result
             cand = [o for o in self.recent if "obj" not in o and not o.get("respell") and o["id"] in self.plain_by_id
-                    and any(type(v) in (int, float) or (isinstance(v, dict) and "$" in v and self.pool.get(v["$"]) is not None
-                                                        and self.pool[v["$"]].kind == "dict") for v in o.get("args", {}).values())]
+                    and any(isinstance(v, dict) and "$" in v and self.pool.get(v["$"]) is not None
+                            and self.pool[v["$"]].kind == "dict" and len(self.pool[v["$"]].value) >= 2 for v in o.get("args", {}).values())]
             if cand:
                 old_op = rng.choice(cand)
                 op = copy.deepcopy({k: v for k, v in old_op.items() if k not in ("fault", "id", "client", "why", "printopts", "thread", "loglevel", "printopts_scoped")})
@@ -382,6 +384,38 @@ class World(WorldBase):
                     return self.stamp(op, rng)
                 except Refuse:
                     pass
+        while self.retry:
+            ent = self.retry[0]
+            ent["ttl"] -= 1
+            if ent["ttl"] < 0 or rng.random() < 0.25:
+                self.retry.pop(0)
+                continue
+            op = copy.deepcopy(ent["op"])
+            if ent["cls"]:
+                twins = sorted(n for n, e in self.pool.items() if e.kind == "obj" and e.tag.get("cls") == ent["cls"])
+                if not twins:
+                    ctor = self.ad.REG.get(ent["cls"] + ".init")
+                    new = ctor.gen(self, rng) if ctor is not None else None
+                    if new is None:
+                        self.retry.pop(0)
+                        continue
+                    new["op"] = "call"
+                    new["ad"] = self.ad.REG[new.pop("as")].id if "as" in new else ctor.id
+                    self.ctx.probe("fresh_object_for_the_repeated_request")
+                    return self.stamp(new, rng)
+                op["obj"] = rng.choice(twins)
+                e = self.pool[op["obj"]]
+                if "reads" in op and self.ad.REG[op["ad"]].rereads:
+                    # the files this method re-reads are those the (new) object was built on; files
+                    # named in the call's own arguments stay the call's own dependencies
+                    op["reads"] = dict(e.tag.get("files", {}))
+            self.retry.pop(0)
+            try:
+                self.precheck(op)
+            except Refuse:
+                continue
+            self.ctx.probe("request_repeated_after_failure")
+            return self.stamp(op, rng)
         if self.recent and rng.random() < sw.get("p_result_edit", 0.0):
             # the client post-processes, in place, what a method of a long-lived object has just
             # returned to it, and calls the method again: if the object handed out its own state,
@@ -443,7 +477,8 @@ class World(WorldBase):
                 self.cur_adapter = a.id
             op["ad"] = a.id
             op = self.stamp(op, rng)
-            if sw["faults"] and rng.random() < sw["p_fault"]:
+            writes = any("output" in k and isinstance(v, str) and v for k, v in op.get("args", {}).items())
+            if sw["faults"] and rng.random() < min(0.8, sw["p_fault"] * (2.5 if writes else 1.0)):     # faults go where files are written
                 kind = rng.choice(sw["faults"])
                 if kind in ("interrupt_line", "alloc_line"):
                     nln = self.dry_lines(lambda: self.exec_call(op, dry=True))
@@ -457,12 +492,12 @@ class World(WorldBase):
                                        "exc": "alloc_line" if kind == "alloc_line" else "interrupt_line"}
                         self.ctx.probe("dry_runs_lines")
                     elif nln > 0:
-                        op["fault"] = {"kind": kind, "at": rng.randint(1, nln), "hold": rng.randint(0, sw.get("hold_max", 0))}
+                        op["fault"] = {"kind": kind, "at": rng.randint(1, nln), "hold": rng.randint(min(2, sw.get("hold_max", 0)), sw.get("hold_max", 0))}
                         self.ctx.probe("dry_runs_lines")
                 elif a.faultable:
                     nev = self.dry_events(lambda: self.exec_call(op, dry=True))
                     if nev > 0:
-                        op["fault"] = {"kind": kind, "at": self.pick_fault_event(rng, nev), "hold": rng.randint(0, sw.get("hold_max", 0))}
+                        op["fault"] = {"kind": kind, "at": self.pick_fault_event(rng, nev), "hold": rng.randint(min(2, sw.get("hold_max", 0)), sw.get("hold_max", 0))}
                         if kind == "oserror_write" and rng.random() < 0.5:
                             op["fault"]["persist"] = True        # the disk stays full for the rest of the call
                         self.ctx.probe("dry_runs")
@@ -696,11 +731,11 @@ class World(WorldBase):
         if self.disk is None:
             return
         now = dirstate(self.ctx.root)
-        for p in sorted(self.files):
+        for p in sorted(self.written_by):
             if self.disk.get(p) != now.get(p, "absent") and p in self.disk:
-                src = self.history.get(self.files[p].get("src"), {})
-                raise Violation(f"C18/I3-file-changed-later:{src.get('ad', '?')}:{kind_of(p)}",
-                                f"{p}, written by {src.get('ad', '?')} and correct when it was written, changed afterwards without any "
+                ad = self.written_by[p]
+                raise Violation(f"C18/I3-file-changed-later:{ad}:{kind_of(p)}",
+                                f"{p}, written by {ad} and correct when it was written, changed afterwards without any "
                                 f"call being made ({self.disk.get(p)} -> {now.get(p, 'absent')}): it no longer holds what was returned")
 
     def finish(self):
@@ -782,6 +817,7 @@ class World(WorldBase):
                 for p in after:
                     if before.get(p) != after[p]:
                         self.files.pop(p, None)
+                        self.written_by.pop(p, None)
                 ctx.probe("sweep_cancellations" if fired else "sweep_point_past_end")
             fault = None
         before = dirstate(ctx.root)
@@ -825,6 +861,12 @@ class World(WorldBase):
             # un-acknowledged, the object it was called on leaves the pool
             for p in delta:
                 self.files.pop(p, None)
+                self.written_by.pop(p, None)
+            if not self.replica and any("output" in k and isinstance(v, str) and v for k, v in op.get("args", {}).items()) \
+                    and not op.get("prereq_needed") and "after" not in op:
+                # what a user does next: the same request again - same output name - on a fresh object
+                self.retry.append({"op": {k: copy.deepcopy(v) for k, v in op.items() if k not in ("fault", "id", "client", "why")},
+                                   "cls": self.pool[op["obj"]].tag.get("cls") if "obj" in op and op["obj"] in self.pool else None, "ttl": 4})
             if "obj" in op:
                 self.taint(op["obj"])
             ctx.probe("call_failed_by_fault")
@@ -847,6 +889,7 @@ class World(WorldBase):
                     self.taint(op["obj"])
                 for p in delta:
                     self.files.pop(p, None)
+                    self.written_by.pop(p, None)
                 return f"{tag} raises {exc[0]} in both worlds"
             raise Violation(f"C18/I2-raise-differs:{tag}",
                             f"live {'raised ' + exc[0] + ': ' + exc[1] if exc else 'returned normally'}; "
@@ -890,8 +933,8 @@ class World(WorldBase):
                 ctx.probe("respelled_call_compared")
                 if why:
                     raise Violation(f"C18/I2-respelled-differs:{tag}",
-                                    f"the same inputs spelled another way (dict items in the opposite order, plain numbers as numpy "
-                                    f"scalars) give another result: {why}; args={self.brief(op)}")
+                                    f"the same inputs spelled another way (an equal dict with its items in the opposite order) give "
+                                    f"another result: {why}; args={self.brief(op)}")
         if "obj" not in op and not self.replica:
             self.plain_by_id[op["id"]] = (ids, copy.deepcopy(live_plain))
             for k in sorted(self.plain_by_id)[:-8]:
@@ -906,6 +949,11 @@ class World(WorldBase):
         if tag in self.last_call:
             ctx.probe("entry_point_called_again")
         self.last_call[tag] = d_live
+        for p, dg in delta.items():
+            if dg == "absent":
+                self.written_by.pop(p, None)
+            else:
+                self.written_by[p] = tag
         self.register(op, a, res, delta)
         self.recent = (self.recent + [op])[-6:]
         ctx.probe(f"ok:{tag}")
